@@ -329,8 +329,10 @@ def attr_stores(fn, attr, selfname=None):
                         if isinstance(e, ast.Attribute) and isinstance(e.value, ast.Name) and (sn is None or e.value.id == sn) and e.attr == attr:
                             if isinstance(s.value, (ast.Tuple, ast.List)) and len(s.value.elts) == len(t.elts):
                                 out.append((s, s.value.elts[i]))
-                            else:
+                            elif not any(isinstance(x, ast.Starred) for x in t.elts[:i]):
                                 out.append((s, ('unpack', s.value, i)))
+                            else:
+                                out.append((s, None))
         elif isinstance(s, (ast.AugAssign, ast.AnnAssign)) and isinstance(s.target, ast.Attribute) \
                 and isinstance(s.target.value, ast.Name) and (sn is None or s.target.value.id == sn) and s.target.attr == attr:
             out.append((s, getattr(s, 'value', None)))
